@@ -139,7 +139,8 @@ def pureWallet : List String → Option String
         kdf := fun ps p s => if ps = [1, 65536, 4, 32] ∧ p = pw ∧ s = salt then dk else []
         aeadSeal := fun k n ad m => if k = dk ∧ n = nonce ∧ ad = [122, 101, 110, 111, 110] ∧ m = entropy then sealed else [] }
       let kf := encrypt C ⟨entropy, [], [], base⟩ pw salt nonce
-      pure s!"baseAddress={showHex kf.baseAddress} cipherName={strOf kf.cipherName} kdf={strOf kf.kdf} cipherData={showHex kf.cipherData} nonce={showHex kf.nonce} salt={showHex kf.salt} version={kf.version}"
+      let t := kf.text
+      pure s!"baseAddress={showHex kf.baseAddress} cipherName={strOf kf.cipherName} kdf={strOf kf.kdf} cipherData={String.ofList t.cipherData} nonce={String.ofList t.nonce} salt={String.ofList t.salt} version={kf.version}"
   | ["wl-decrypt", ct, nonce, salt, pw, dk, opened] => do
       let ct ← ofHex ct
       let nonce ← ofHex nonce
@@ -157,6 +158,11 @@ def pureWallet : List String → Option String
       match decryptEntropy C kf pw with
       | .error e => pure ("err " ++ e.show)
       | .ok e => pure ("ok " ++ showHex e)
+  | ["wl-text", c, n, sa] =>
+      -- the three byte fields as JSON text (possibly malformed) → what ReadKeyFile decodes
+      match (KeyFileText.mk c.toList n.toList sa.toList).parse with
+      | none => pure "err json"
+      | some (c, n, sa) => pure s!"ok {showHex c} {showHex n} {showHex sa}"
   | ["wl-readchecks", cn, kdf, ver] => do
       let cn ← ofHex cn
       let kdf ← ofHex kdf
